@@ -80,7 +80,7 @@ func sameElemSub(a, b ssa.Value, sub map[ssa.Value]ssa.Value) bool {
 	if len(sub) == 0 {
 		return sameElem(a, b)
 	}
-	a, b = stripConv(a), resolveSub(b, sub)
+	a, b = resolveSub(a, sub), resolveSub(b, sub)
 	if sameElem(a, b) {
 		return true
 	}
